@@ -364,6 +364,43 @@ def ref_eigs(ctx, exe, mats):
     return out
 
 
+GS_CUTOFF = 1e-4
+
+
+def gs_replay(S, O, D, d):
+    """the orthonormalisation loop of eigendecomposition_impl_randomized (model: Spectral_Randomized.gram_schmidt_thr)
+    replayed in binary64 on Y = S * O.  Returns (norms, fired): the norm met at every column and whether the ABSOLUTE
+    cut-off `norm < 1e-4` was taken (the columns from there on are zeroed and scaled by 1/0: known finding F36)"""
+    Y = [[math.fsum(S[t][u] * O[u][c] for u in range(D)) for c in range(d)] for t in range(D)]
+    norms, fired = [], False
+    for i in range(d):
+        for j in range(i):
+            r = math.fsum(Y[t][i] * Y[t][j] for t in range(D))
+            for t in range(D):
+                Y[t][i] -= r * Y[t][j]
+        nrm = math.sqrt(math.fsum(Y[t][i] ** 2 for t in range(D)))
+        norms.append(nrm)
+        if nrm < GS_CUTOFF * (1 + 1e-6):         # taken, or too close to call: same root cause
+            fired = True
+            break
+        for t in range(D):
+            Y[t][i] /= nrm
+    return norms, fired
+
+
+def cutoff_fired(c, r, S):
+    """replay for one randomized case: S = the matrix the front-end sees (actual scale, Fractions)"""
+    Om = mat_of(r["R"].get("omega", []), hexfloat)
+    D, d = c["D"], c["d"]
+    if Om is None or S is None or (Om[0], Om[1]) != (D, d):
+        return None, None
+    try:
+        norms, fired = gs_replay([[float(v) for v in row] for row in S], [[float(v) for v in row] for row in Om[2]], D, d)
+    except (OverflowError, ValueError, ZeroDivisionError):
+        return None, None
+    return fired, norms
+
+
 def unit_of(c):
     """2^-k for a scaled copy (k = scale_log2), 1 otherwise: the exact factor that brings the data back"""
     return Fraction(2) ** (-c.get("scale_log2", 0))
@@ -391,6 +428,7 @@ class Stats:
         self.agree_gram = 0
         self.old_model_matches = 0
         self.views = {}
+        self.gs_replays = 0
 
     def bump(self, d, k, n=1):
         d[k] = d.get(k, 0) + n
@@ -418,15 +456,18 @@ def evaluate(ctx, exe, mexe, cases, st, record=True):
     spec_lines, spec_owner = [], []            # owner: (case index, why, kind) kind in violation|probe|mismatch
     probe_info, probe_failed = {}, {}
     post = []                                  # deferred work needing reference eigenvalues
+    gs_fired, gs_norms = {}, {}                # randomized cases: did the replayed cut-off fire?
 
     def viol(i, why):
         if verdicts[i] in ("violation", "known"):
             return
         c = cases[i]
-        if c.get("solver") == "randomized" and c.get("scale_log2", 0) <= -30:
-            # entries below 2^-30 * 100: every Gram-Schmidt norm of the randomized front-end is far below its
-            # ABSOLUTE cut-off 1e-4, the columns are zeroed and scaled by 1/0 (known finding F36)
-            why += " [tiny-scale input: the absolute cut-off `norm < 1e-4` of the randomized front-end fired]"
+        if c.get("solver") == "randomized" and gs_fired.get(i):
+            # strict match: the replay of the front-end's Gram-Schmidt loop on the Gaussian matrix it drew shows
+            # that its ABSOLUTE cut-off `norm < 1e-4` was taken (known finding F36)
+            why += " [replayed Gram-Schmidt norms %s: the absolute cut-off `norm < 1e-4` of the randomized " \
+                   "front-end fired]" % ["%.3g" % x for x in gs_norms.get(i, [])]
+            st.bump(st.skipped, "randomized:F36-cutoff-fired")
             if not record or not ctx.violation(case_json(c), why, signature=F36):
                 verdicts[i] = "known"
                 return
@@ -464,6 +505,13 @@ def evaluate(ctx, exe, mexe, cases, st, record=True):
 
     eig_requests = []       # (case index, symmetric matrix)
     for i, (c, r) in enumerate(zip(cases, impl)):
+        if c.get("solver") == "randomized" and c["kind"] in ("EMB", "TRI"):
+            S = model_matrix(model.get((i, "cov" if c["kind"] == "EMB" else "seen"), ""), c["D"])
+            gs_fired[i], nr = cutoff_fired(c, r, S)
+            if nr is not None:
+                gs_norms[i] = nr
+            st.gs_replays += 1
+    for i, (c, r) in enumerate(zip(cases, impl)):
         st.evaluated += 1
         kind = c["kind"]
         if r["crashed"]:
@@ -474,7 +522,7 @@ def evaluate(ctx, exe, mexe, cases, st, record=True):
                 viol(i, "the implementation aborts / hangs on this input (%s): %s" % (kind, crash_text(r["crashed"])))
             continue
         if r["X"] is not None:
-            if kind in ("EMB", "TRI") and c.get("solver") == "randomized" and c.get("scale_log2", 0) <= -30:
+            if kind in ("EMB", "TRI") and c.get("solver") == "randomized" and gs_fired.get(i):
                 viol(i, "the randomized eigensolver raises on exact-rank data: %s" % r["X"])
             elif kind == "EMB":
                 verdicts[i] = "skip"
@@ -566,6 +614,8 @@ def evaluate(ctx, exe, mexe, cases, st, record=True):
                 if kind == "RAW":
                     ctx.unshown("oracle probe: Eigen::SelfAdjointEigenSolver output malformed")
                     verdicts[i] = "skip"
+                elif c.get("solver") == "randomized" and gs_fired.get(i):
+                    viol(i, "eigendecomposition(randomized): output not finite")
                 else:
                     mism(i, "eigendecomposition(%s): output missing, malformed, not finite or of the wrong shape" % c["solver"])
                 continue
@@ -586,7 +636,9 @@ def evaluate(ctx, exe, mexe, cases, st, record=True):
             mism(i, "model answers %r on an input the implementation accepted" % model[(i, "cov")][:60])
             continue
         if P is None or emb is None or m is None:
-            if c["solver"] == "randomized" or c["style"] == "ties":
+            if c["solver"] == "randomized" and gs_fired.get(i):
+                viol(i, "PCA (randomized): projection matrix / embedding not finite")
+            elif c["solver"] == "randomized" or c["style"] == "ties":
                 verdicts[i] = "skip"            # rank < d: finiteness is C01's subject
                 st.bump(st.skipped, "pca-%s:nonfinite" % c["solver"])
             else:
@@ -687,6 +739,8 @@ def evaluate(ctx, exe, mexe, cases, st, record=True):
             continue
         why2 = why + (" [decision procedure: %s]" % a if a != "F" else "")
         if kindv == "violation":
+            viol(i, why2)
+        elif kindv == "probe" and cases[i].get("solver") == "randomized" and gs_fired.get(i):
             viol(i, why2)
         elif kindv == "probe":
             probe_failed.setdefault(i, why2)
@@ -880,6 +934,8 @@ def build_cases(ctx, quick):
         if j % every == 0 or (c["kind"] == "TRI" and j % 3 == 2):
             rand_tri = c["kind"] == "TRI" and c["solver"] == "randomized"
             add(scaled_copy(c, rand_scale(rng, positive_only=rand_tri and not tiny_randomized)), key)
+            if rand_tri and tiny_randomized:
+                add(scaled_copy(c, -rng.choice([10, 30, 52])), key)
     n_dense, n_rand = (24, 6) if quick else (250, 60)
     embs = []
     for j in range(n_dense):
@@ -895,7 +951,9 @@ def build_cases(ctx, quick):
         c = gen_emb(rng, "randomized")
         add(c, "api:pca-randomized")
         if j % every == 0:
-            add(scaled_copy(c, rand_scale(rng, positive_only=not tiny_randomized)), "api:pca-randomized")
+            add(scaled_copy(c, rand_scale(rng, positive_only=True)), "api:pca-randomized")
+            if tiny_randomized:
+                add(scaled_copy(c, -rng.choice([10, 30, 52])), "api:pca-randomized")
     return cases, hist
 
 
@@ -991,7 +1049,8 @@ def run(ctx):
                    "agreement_tests": {"gram": st.agree_gram, "column_sign": st.agree_sign},
                    "returned_matrix_equals_pre_F8_model": st.old_model_matches, "search_phase_cases": searched,
                    "front_end_views_differing_from_the_model": st.views,
-                   "pca_cases_rerun_with_eigen_assertions": eigen_dbg},
+                   "pca_cases_rerun_with_eigen_assertions": eigen_dbg,
+                   "randomized_gram_schmidt_replays": st.gs_replays},
         trusted_base=TRUSTED,
         assumptions=["feature vectors are finite doubles of the announced dimension, N >= 1",
                      "target_dimension <= min(D, N-1) (larger values are the open finding F21, owned by C01)",
